@@ -10,9 +10,10 @@ from checks.common import *  # noqa
 PROPERTY = "C02"
 
 
-def h_history(ctx, hist, fr_max, arc_max, aa0, ask, ackpl, send_only, ard="sym", latency=0):
+def h_history(ctx, hist, fr_max, arc_max, aa0, ask, ackpl, send_only, ard="sym", latency=0, driver="full"):
     clock = fresh_env(ctx)
-    radio, nrf = new_rf24(clock)
+    lite = driver == "lite"
+    radio, nrf = new_lite(clock) if lite else new_rf24(clock)
     radio.latency = latency
     pl_cache = {}
 
@@ -25,14 +26,19 @@ def h_history(ctx, hist, fr_max, arc_max, aa0, ask, ackpl, send_only, ard="sym",
 
     link = ScriptedLink(lambda n: ctx.bool("ack%d" % n), ack_payload)
     radio.link = link
-    nrf.allow_ask_no_ack = True
+    if not lite:
+        nrf.allow_ask_no_ack = True  # (always allowed by the lite driver)
     if ackpl:
         nrf.ack = True
     if not aa0:
-        nrf.set_auto_ack(False, 0)
+        nrf.set_auto_ack(False, 0)  # (not available in the lite driver: auto-ack is always on)
     arc = ctx.int("arc", 0, arc_max)
     ard = ctx.int("ard", 250, 4000) if ard == "sym" else ard
-    nrf.set_auto_retries(ard, arc)
+    if lite:
+        nrf.ard = ard
+        nrf.arc = arc
+    else:
+        nrf.set_auto_retries(ard, arc)
     nrf.listen = False  # "in TX mode"
     no_wait = ask or not aa0
     ard_ns = ((ard - 250) // 250 + 1) * 250_000
